@@ -1086,6 +1086,7 @@ def support(ctx, broken):
             todo.append(c)
     results = _parallel(todo)
     per_sig = {}
+    totals = {}
     for case, r in zip(todo, results):
         sup.executed += 1
         op = OPS_BY_NAME[case["op"]]
@@ -1097,12 +1098,17 @@ def support(ctx, broken):
             sig, detail = r
             key = (sig.get("op"), sig.get("what"), sig.get("kind"))
             per_sig[key] = per_sig.get(key, 0) + 1
+            tk = f"{sig.get('site') or sig.get('kind') or sig.get('family')}/{sig.get('what')}"
+            totals[tk] = totals.get(tk, 0) + 1
             if per_sig[key] <= 2 and len(sup.failures) < 40:
                 sup.failures.append(Failure(sig=sig, case=case, detail=detail))
     # failures in the families a broken obligation points at first, then smallest layouts first
     fams = getattr(ctx, "steered_families", set())
     sup.failures.sort(key=lambda fl: (OPS_BY_NAME[fl.case["op"]]["family"] not in fams,
                                       len(fl.case["cutsL"]) + len(fl.case["cutsR"] or []), fl.case["op"]))
+    if sup.failures:
+        # the replay file carries the first failure only: summarise all failing signatures with it
+        sup.failures[0].detail += " || all failing cases by site/what: " + ", ".join(f"{k} x{v}" for k, v in sorted(totals.items()))
     return sup
 
 
